@@ -410,6 +410,8 @@ func ruleC07(w *World, r *Report) {
 	ruleC07Allocate(w, r, alloc, free, isAl, upd, minV)
 	ruleC07Never(w, r)
 	ruleTranslatorBytes(w, r, "C07", "R07.8")
+	ruleStoredIsProgrammed(w, r, "C07", "R07.10")
+	ruleC07EverySessionsEntry(w, r)
 	ruleC07SEID(w, r)
 	ruleC07Reported(w, r, alloc)
 }
@@ -647,7 +649,35 @@ func ruleC07Never(w *World, r *Report) {
 			r.check(fn == "pfcpiface.NewFTEIDGenerator", "R07.4", fn, "the used-set is created once", w.Pos(a.ins.Pos()), "constructor", "usedMap is replaced in "+fn)
 		}
 	}
-	r.floor("R07.4 generator installation sites", n, 2)
+	// there is one generator for the whole node: no other object holds a generator of its own
+	for _, f := range w.Funcs {
+		if strings.HasPrefix(w.FuncName(f), "test/") {
+			continue
+		}
+		allInstrs(f, func(i ssa.Instruction) {
+			st, ok := i.(*ssa.Store)
+			if !ok {
+				return
+			}
+			fa, ok := st.Addr.(*ssa.FieldAddr)
+			if !ok || fieldVar(fa) == nil {
+				return
+			}
+			if nt := namedOf(fieldVar(fa).Type()); nt == nil || nt.Obj().Name() != "FTEIDGenerator" {
+				return
+			}
+			owner := ""
+			if o := namedOf(fa.X.Type()); o != nil {
+				owner = o.Obj().Name()
+			}
+			if owner == "upf" && fieldVar(fa).Name() == "fteidGenerator" {
+				return // judged above
+			}
+			n++
+			r.bad("R07.4", w.FuncName(f), "the node has a single TEID generator", w.Pos(st.Pos()), owner+"."+fieldVar(fa).Name()+" holds a TEID generator of its own: every such object starts its cursor at TEID 1, so live sessions of two associations get the same (N3 address, TEID)")
+		})
+	}
+	r.floor("R07.4 generator installation sites", n, 1)
 	// every Allocate/FreeID call goes to upf.fteidGenerator
 	for _, name := range []string{"pfcpiface.(*FTEIDGenerator).Allocate", "pfcpiface.(*FTEIDGenerator).FreeID"} {
 		f := w.Fn("C07", name)
@@ -956,4 +986,72 @@ func appendedFromCell(app *ssa.Call, cell ssa.Value) bool {
 		}
 	}
 	return false
+}
+
+// ruleC07EverySessionsEntry (R07.11): the F-TEID reported for a PDR is programmed: UP4 writes the
+// sessions entry of every PDR it is given. PDRs of one direction often share the entry (same TEID: the
+// switch answers ALREADY_EXISTS, tolerated), but they need not — each CHOOSE PDR gets a TEID of its own —
+// so the entry may not be skipped because "the direction was done already".
+func ruleC07EverySessionsEntry(w *World, r *Report) {
+	const P = "C07"
+	mod := w.Fn(P, "pfcpiface.(*UP4).modifyUP4ForwardingConfiguration")
+	build := w.Fn(P, "pfcpiface.(*P4rtTranslator).BuildSessionsTableEntry")
+	n := 0
+	for _, c := range callsTo(mod, build) {
+		call := c.(*ssa.Call)
+		entry := extractOf(call, 0)
+		errV := extractOf(call, 1)
+		if entry == nil || errV == nil {
+			continue
+		}
+		n++
+		var start ssa.Instruction
+		for _, b := range mod.Blocks {
+			for _, sc := range b.Succs {
+				if nilnessEdge(b, sc, func(x ssa.Value) bool { return x == errV }, true) && len(sc.Instrs) > 0 {
+					start = sc.Instrs[0]
+				}
+			}
+		}
+		if start == nil {
+			r.bad("R07.11", w.FuncName(mod), "the sessions entry's build error is examined", w.Pos(call.Pos()), "no err == nil edge after BuildSessionsTableEntry")
+			continue
+		}
+		// the append that puts the entry into the batch
+		isAppend := func(i ssa.Instruction) bool {
+			ac, ok := i.(*ssa.Call)
+			if !ok || calleeName(ac) != "builtin.append" || len(ac.Call.Args) != 2 {
+				return false
+			}
+			// variadic slice of a fresh array holding the entry
+			sl, ok := ac.Call.Args[1].(*ssa.Slice)
+			if !ok {
+				return false
+			}
+			al, ok := sl.X.(*ssa.Alloc)
+			if !ok {
+				return false
+			}
+			for _, ref := range *al.Referrers() {
+				if ia, ok := ref.(*ssa.IndexAddr); ok {
+					for _, rr := range *ia.Referrers() {
+						if st, ok := rr.(*ssa.Store); ok && st.Val == entry {
+							return true
+						}
+					}
+				}
+			}
+			return false
+		}
+		isApply := func(i ssa.Instruction) bool {
+			ac, ok := i.(*ssa.Call)
+			return ok && staticCallee(ac) != nil && staticCallee(ac).Name() == "ApplyTableEntries"
+		}
+		miss := reach(mod, start, isApply, isAppend, nil)
+		if isAppend(start) {
+			miss = nil
+		}
+		r.check(miss == nil, "R07.11", w.FuncName(mod), "the sessions entry of every PDR is part of the PDR's batch", w.Pos(call.Pos()), "appended on every path to ApplyTableEntries", "the sessions entry built for a PDR can be left out of the write (e.g. because an entry for that direction was written already): a second uplink PDR with a TEID of its own — the handler allocates one per CHOOSE PDR and reports it — never gets its sessions_uplink entry")
+	}
+	r.floor("R07.11 sessions entries built per PDR", n, 1)
 }
